@@ -190,7 +190,7 @@ func (s *spec) Enabled(w *engine.World, ctx sdk.Context, mm engine.Model, depth 
 		}
 	}
 	if m.Reqs < s.cfg.MaxReq {
-		for _, k := range []string{"req", "reqlow", "reqnolimit", "reqotherdenom", "reqgov", "reqfail", "reqpoor", "oreq", "oreqlow"} {
+		for _, k := range []string{"req", "reqlow", "reqnolimit", "reqotherdenom", "reqgov", "reqfail", "reqpoor", "oreq", "oreqlow", "oreqmany"} {
 			if has(ev, k) {
 				out = append(out, k)
 			}
@@ -377,6 +377,30 @@ func (s *spec) Step(w *engine.World, ctx sdk.Context, mm engine.Model, ev string
 		st.Outcome = "act:" + res.ErrName()
 		if res.OK() {
 			m.Active[i] = true
+		}
+	case "oreqmany":
+		// as oreq, but three validators are asked, two reports suffice, and all three report in this block; the fee limit
+		// leaves room for two signing fees: the result is still put to the group once and one fee is charged
+		m.Reqs++
+		oracleCost := int64(9_000_000) // data sources 1..3 (1000000uband each) x ask_count 3
+		limit := oracleCost + 2*fee*int64(s.cfg.T)
+		rq := oracletypes.NewMsgRequestData(1, []byte("c"), 3, 2, "tsssig-many", sdk.NewCoins(sdk.NewInt64Coin("uband", limit)), bandtesting.TestDefaultPrepareGas, bandtesting.TestDefaultExecuteGas, bandtesting.FeePayer.Address, oracletypes.ENCODER_FULL_ABI)
+		res := w.Tx(ctx, 0, rq)
+		st.Outcome = parts[0] + ":" + res.ErrName()
+		if res.OK() {
+			rid := w.App.OracleKeeper.GetRequestCount(ctx)
+			req := w.App.OracleKeeper.MustGetRequest(ctx, oracletypes.RequestID(rid))
+			var raws []oracletypes.RawReport
+			for _, rr := range req.RawRequests {
+				raws = append(raws, oracletypes.NewRawReport(rr.ExternalID, 0, []byte("x")))
+			}
+			for _, rv := range req.RequestedValidators {
+				val, _ := sdk.ValAddressFromBech32(rv)
+				if r2 := w.Tx(ctx, 0, oracletypes.NewMsgReportData(oracletypes.RequestID(rid), raws, val)); !r2.OK() {
+					panic("report: " + r2.Err.Error())
+				}
+			}
+			m.Due = append(m.Due, limit-oracleCost)
 		}
 	case "oreq", "oreqlow":
 		// an oracle request with a TSS encoder, reported at once by its validator: its result is put to the
@@ -642,6 +666,10 @@ func (s *spec) Step(w *engine.World, ctx sdk.Context, mm engine.Model, ev string
 			}
 			if c := tk.GetSigningCount(postEnd); c != known {
 				st.Violate("C05/unexpected-signing-created-at-block-end", "signing count %d after the block, model knows %d", c, known)
+				// the fee side of the same event: a signing nobody asked for was paid for out of somebody's fee limit
+				if got := bal(w, postEnd, bk.GetBandtssAccount(postEnd).GetAddress()); got != m.Escrow {
+					st.Violate("C13/fee-charged-for-a-signing-that-was-not-requested", "signing count %d after the block, model knows %d; bandtss module holds %d, ledger says %d", c, known, got, m.Escrow)
+				}
 				return next, st
 			}
 		}
